@@ -14,7 +14,7 @@ import (
 // Key algorithms the DID package can generate.
 var allAlgs = []string{"ed25519", "secp256k1", "p256", "p384", "p521", "rsa"}
 
-var poolSize = map[string]int{"ed25519": 8, "secp256k1": 4, "p256": 4, "p384": 2, "p521": 2, "rsa": 2}
+var poolSize = map[string]int{"ed25519": 12, "secp256k1": 8, "p256": 8, "p384": 4, "p521": 4, "rsa": 3}
 
 type Principal struct {
 	Alg string `json:"alg"`
